@@ -130,7 +130,8 @@ def run(pid, tier):
         os.makedirs(wd)
         with open(os.path.join(wd, "cases.json"), "w") as f:
             json.dump(pick, f)
-        p = subprocess.run([drv, "plan", os.path.join(wd, "cases.json"), wd], stdout=subprocess.PIPE, stderr=subprocess.STDOUT, text=True, timeout=600)
+        nrandom = 150 if tier == "quick" else 2500
+        p = subprocess.run([drv, "plan", os.path.join(wd, "cases.json"), wd, str(nrandom), str(seed)], stdout=subprocess.PIPE, stderr=subprocess.STDOUT, text=True, timeout=600)
         if p.returncode != 0:
             raise C.Inconclusive("fault planning failed: " + p.stdout[-2000:])
         with open(os.path.join(wd, "plan.json")) as f:
@@ -161,7 +162,7 @@ def run(pid, tier):
             print("  %s  [field %s, fault %s, table layout %s; %d damaged files with this signature]" % (bad[k][:200], ft["field"], ft["class"], ft["feat"], len(ks)))
             nviol += 1
         design = nav_design(sc, tier)
-        combos = {(f["field"], f["class"] if f["kind"] == "edit" else "truncate", f["feat"]) for f in faults}
+        combos = {(f["field"], f["class"], f["feat"]) for f in faults}
         cov = dict(evaluations=len(results), distinct_nontrivial=len(combos),
                    rule="one evaluation = one damaged file opened and exercised (NewReader, full scans, seeks, ReadRef/ReadLogAt, RefsFor); "
                         "distinct = (format field, fault class, layout feature of the table) triples, counted",
@@ -170,7 +171,7 @@ def run(pid, tier):
                    failures=len(bad), failure_signatures=len(bysig), known_findings_seen=sorted(seen_known),
                    index_graph_edges=sum(1 for f in faults if f["class"].startswith("edge_to_")), design_model=design)
         C.write_evidence(pid, tier, LEVEL, cov, time.time() - t0, nviol,
-                         assumptions=["faults are structural edits of format fields and truncations; arbitrary bit flips, splices and coverage-guided fuzzing are NOT done",
+                         assumptions=["faults are structural edits of format fields, truncations, and a seeded sample of bit flips and splices; coverage-guided fuzzing is NOT done",
                                       "memory safety is observed (panic / crash / watchdog), not proved"])
         print("%s %s: %d damaged files from %d tables, %d (field, class, layout) combinations, %d failures in %d signatures, %d violations, %.1fs" %
               (pid, tier, len(results), len(plan["tables"]), len(combos), len(bad), len(bysig), nviol, time.time() - t0))
